@@ -293,9 +293,12 @@ def writers(ctx, rule="C09.effects", floor=40):
     ctx.ob(rule, lc.site, deep, "" if deep else "_linked_copy no longer deep-copies the attributes it does not share "
            "(dict / list valued options would be shared with the source)", role="deepcopy", line=lc.node.lineno)
     comp = ctx.tree.func("program.py", "Program.compile")
+    copies = {dotted(n.targets[0]) for n in walk_no_nested(comp.node) if isinstance(n, ast.Assign) and
+              isinstance(n.value, ast.Call) and dotted(n.value.func) == "self._linked_copy"}
+    ctx.require(copies, "Program.compile no longer works on a self._linked_copy()")
     for n in walk_no_nested(comp.node):
         if isinstance(n, ast.Call) and isinstance(n.func, ast.Attribute) and n.func.attr in MUTATORS and \
-                isinstance(n.func.value, ast.Attribute) and dotted(n.func.value.value) == "compiled":
+                isinstance(n.func.value, ast.Attribute) and dotted(n.func.value.value) in copies:
             a = n.func.value.attr
             ok = a not in shared
             ctx.ob(rule, comp.site, ok, "" if ok else f"compile() updates `compiled.{a}` in place but _linked_copy shares "
@@ -324,10 +327,14 @@ def run_order(ctx, rule="C09.order"):
         return None, None
 
     run, runc = node_of("self._run_program")
-    bind, _ = node_of("p.bind_params")
-    lock, _ = node_of("p.lock")
+    # the segment variable is whatever is handed to _run_program; the predecessor whatever can_follow receives
+    pv = runc.args[0].id if runc.args and isinstance(runc.args[0], ast.Name) else "p"
+    bind, _ = node_of(f"{pv}.bind_params")
+    lock, _ = node_of(f"{pv}.lock")
     app, _ = node_of("self.run_progs.append")
-    comp, _ = node_of("p.compile")
+    comp, _ = node_of(f"{pv}.compile")
+    _, folc = node_of(f"{pv}.can_follow")
+    prevv = folc.args[0].id if folc.args and isinstance(folc.args[0], ast.Name) else "prev"
     follow = None
     for n in cfg.nodes:
         if n.kind == "if" and "can_follow" in ast.unparse(n.ast):
@@ -354,7 +361,7 @@ def run_order(ctx, rule="C09.order"):
     # prev = p at the end of each iteration
     prev_ok = False
     for n in walk_no_nested(f.node):
-        if isinstance(n, ast.Assign) and dotted(n.targets[0]) == "prev" and dotted(n.value) == "p":
+        if isinstance(n, ast.Assign) and dotted(n.targets[0]) == prevv and dotted(n.value) == pv:
             i = cfg.find(n)[0]
             prev_ok = cfg.must_pass(run, [i], exits=[hdr[0], cfg.exit], exc=False) if hdr else False
     ctx.ob(rule, f.site, prev_ok, "" if prev_ok else "`prev = p` is not executed on every path after a segment has run",
